@@ -140,6 +140,26 @@ def run(ctx: Ctx) -> Result:
                         B.viol(f'refund witness vs {lk} lock, no timestamp supplied, the same context dict reused over runs at clock - deadline = {[h[0] for h in hist]}',
                                {**inp, 'lock': lk, 'scripts': [wr_.bytes.hex(), l.bytes.hex()], 'context_after': sorted(str(k) for k in ctxd)}, now_ >= deadline, hist)
                         break
+            # the interpreter-wide slack threshold (functions.flags['ts_threshold'], the documented knob) as it is NOW governs the refund
+            # branch - also when authorizations ran in this process before the operator changed it
+            if it % 10 == 0:
+                F_ = B.F; saved_ = dict(F_.flags)
+                wr_ = (refund['ptlc_refund'] if wk_.startswith('ptlc') else refund[wk_])
+                try:
+                    with vmrun.Env(vmrun.Cfg(now=B.now)) as env: env.F.run_auth_scripts([claim[wk_].bytes, l.bytes], {**sf, 'timestamp': B.now})
+                    for thr_, lead in ((10, 30), (3600, 120), (60, 30), (5, 5), (0, 5000)):
+                        F_.flags['ts_threshold'] = thr_
+                        t_ = deadline + 5; now_ = t_ - lead
+                        if now_ < 0: continue
+                        with vmrun.Env(vmrun.Cfg(now=now_)) as env:
+                            try: got_ = env.F.run_auth_scripts([wr_.bytes, l.bytes], {**sf, 'timestamp': t_})
+                            except BaseException as e: got_ = 'RAISED:' + type(e).__name__
+                        want_ = thr_ <= 0 or lead < thr_
+                        res.note_case(('global-slack-history', lk, thr_, lead, rs))
+                        if got_ is not want_:
+                            B.viol(f"refund witness vs {lk} lock after functions.flags['ts_threshold'] was set to {thr_} (an authorization had run before), t - now = {lead}", {**inp, 'lock': lk, 'scripts': [wr_.bytes.hex(), l.bytes.hex()]}, want_, got_)
+                finally:
+                    F_.flags.clear(); F_.flags.update(saved_)
             # cross-pairings at a neutral time
             cache = {**sf, 'timestamp': B.now}
             for wk2, w in stranger.items():          # "any other key is rejected": every witness kind made by a stranger, against every lock kind
